@@ -1,6 +1,19 @@
-//! mc-aggregator: serves C14, C15, C16 (see /verif/DESIGN.md §4)
+//! mc-aggregator: serves C14, C15, C16 (see /verif/DESIGN.md §4) on the real aggregator.
+mod c14;
+mod c15;
+mod ctl;
+mod sys;
+mod world;
+
 fn main() {
     let ctx = mc_core::Ctx::from_args();
-    eprintln!("{}: not implemented", ctx.property);
-    std::process::exit(2)
+    mc_core::quiet_panics();
+    match ctx.property.as_str() {
+        "C14" => c14::run(&ctx),
+        "C15" => c15::run(&ctx),
+        other => {
+            eprintln!("mc-aggregator does not serve {other} yet");
+            std::process::exit(2);
+        }
+    }
 }
